@@ -294,7 +294,7 @@ end dense
 section addsub
 variable [Ring α] [DecidableEq α]
 
-theorem kvSum_append (es fs : List (List Nat × α)) (i : List Nat) :
+theorem kvSum_append_r (es fs : List (List Nat × α)) (i : List Nat) :
     kvSum (es ++ fs) i = kvSum es i + kvSum fs i := by
   induction es with
   | nil => simp [kvSum_nil]
@@ -347,7 +347,7 @@ theorem sub_sparse_spec (A B : Sparse α) (hA : A.WF) (hB : B.WF) (hs : A.shape 
       obtain ⟨S, h1, h2, h3, h4⟩ := fromAgg_sum (A.subs ++ B.subs) (A.vals ++ B.vals.map (fun v => -1 * v))
         B.shape hne (hs ▸ hN) hin hl
       refine ⟨S, by rw [h1]; rfl, h3, h2, fun i => ?_⟩
-      rw [h4 i, List.zip_append (by rw [hA.len]), kvSum_append]
+      rw [h4 i, List.zip_append (by rw [hA.len]), kvSum_append_r]
       have e1 : kvSum (A.subs.zip A.vals) i = A.get i := rfl
       have e2 : kvSum (B.subs.zip (B.vals.map (fun v => -1 * v))) i = (neg B).get i := rfl
       rw [e1, e2, ng i, sub_eq_add_neg]
